@@ -286,7 +286,7 @@ def plan(tier, seed):
                     if rep % 3 != 2:
                         c_['ufam'] = 'int'
                     else:
-                        c_['geo'] = ['int', 'jitter', 'nano', 'mega'][(rep // 3) % 4]
+                        c_['geo'] = ['int', 'jitter', 'nano', 'mega', 'offset', 'negative', 'wild'][(rep // 3) % 7]
                 else:
                     c_['tunit'] = True
                 cases.append(c_)
